@@ -62,4 +62,23 @@ def run_decoy(item):
                     done.append('signal-decoy')
                 except Exception as e:
                     done.append('failed:%s' % type(e).__name__)
+        # ... and the same N / degree on a DIFFERENT knot grid, derivative included (nothing computed for one knot vector may serve another)
+        if order >= 1:
+            other_grid = ('geometric', {'growth_factor': 3, 'local': True}) if item['grid'][0] == 'uniform' else ('uniform', {})
+            with contextlib.redirect_stdout(io.StringIO()), contextlib.redirect_stderr(io.StringIO()):
+                try:
+                    ocp = Ocp(t0=0.5, T=2.0)
+                    x = ocp.state()
+                    sig = ocp.parameter(grid='bspline', order=order)
+                    ocp.set_value(sig, ca.DM([0.1 * (j + 1) for j in range(Ns + order)]).T)
+                    ocp.set_der(x, sig)
+                    dsig = ocp.der(sig)
+                    ocp.subject_to(ocp.at_t0(x) == 0)
+                    ocp.add_objective(ocp.at_tf(x))
+                    ocp.solver('ipopt')
+                    ocp.method(MultipleShooting(N=Ns, grid=make_grid(other_grid)))
+                    ocp.sample(dsig, grid='control')
+                    done.append('signal-decoy-other-grid')
+                except Exception as e:
+                    done.append('failed:%s' % type(e).__name__)
     return done
